@@ -3,7 +3,7 @@ import itertools
 from vlib.gen_traj import f2b
 
 PID = "C16"
-LEAN_MODULE = "Sb.Properties.C16RoundTrip"
+LEAN_MODULE = "Sb.Properties.C16Yaw"
 THEOREMS = [
     "Sb.C16.constants", "Sb.C16.splitDur_sum", "Sb.C16.splitDur_le", "Sb.C16.appendMany_append",
     "Sb.C16.appendLineAux_as_segments", "Sb.C16.holdChunks_sum", "Sb.C16.holdForAux_segments", "Sb.C16.appendSegment_last", "Sb.C16.init_invalid_scale",
@@ -12,7 +12,7 @@ THEOREMS = [
             "Sb.C16.appendLine_ok", "Sb.C16.appendLineAux_ok", "Sb.C16.scaleCoord_between", "Sb.C16.validC_mid", "Sb.C16.validPt_origin",
             "Sb.Proofs.midpoint_between", "Sb.Proofs.repr_round", "Sb.Proofs.repr_two_mul",
             "Sb.C16.finish_restarts", "Sb.C16.history_finish_restarts", "Sb.C16.applyCall_hdr",
-            "Sb.C16.builder_roundtrip", "Sb.C16.passes_through_appendLine", "Sb.C16.passes_through_hold", "Sb.C16.history_good",
+            "Sb.C16.yawDec_within_tenth", "Sb.C16.passes_through_appendLine_tenth", "Sb.C16.trunc_round_within_one", "Sb.C16.fmod360_spec", "Sb.C16.builder_roundtrip", "Sb.C16.passes_through_appendLine", "Sb.C16.passes_through_hold", "Sb.C16.history_good",
             "Sb.C16.decodeSeg_encoded", "Sb.C16.appendSegment_inv", "Sb.C16.appendLine_inv", "Sb.C16.holdFor_inv", "Sb.C16.setStart_inv",
             "Sb.C16.init_inv", "Sb.C16.posAt_at_total", "Sb.C16.posAt_after_call", "Sb.C16.rel_within_quantum", "Sb.C16.Enc.decode"]
 ASSUMPTIONS = ["finite coordinates (NaN would make floorf(NaN) -> int16 conversion undefined; the property quantifies over finite ones)"]
